@@ -27,6 +27,16 @@ class Obj:
         return f"{self._cls}({', '.join(f'{k}={v!r}' for k, v in self.__dict__.items() if k != '_cls')})"
 
 
+class ClassRef:
+    """Stands for a repository class object (used for classmethods and construction)."""
+
+    def __init__(self, name: str):
+        self.name = name
+
+    def __repr__(self):
+        return f"<class {self.name}>"
+
+
 class _Return(Exception):
     def __init__(self, v):
         self.v = v
@@ -41,6 +51,8 @@ class Evaluator:
         self.lookup = lookup                   # callback(name) -> ast.expr | None for lazily bound locals
         self._call_depth = 0
         self.natives = natives or {}           # (class, method) -> python callable(*args) standing for a repo method
+        self.classes = {}                      # class name -> ast.ClassDef (dataclasses / plain classes that may be built)
+        self.globals = {}                      # free names of the interpreted module (folded tables etc.)
         self.modules = modules or {}           # module name -> {attribute: value or python callable}
         self.steps = 0
         self.max_steps = max_steps
@@ -81,6 +93,10 @@ class Evaluator:
             for t in st.targets:
                 self.assign(t, v, env)
             return
+        if isinstance(st, ast.AnnAssign):
+            if st.value is not None:
+                self.assign(st.target, self.expr(st.value, env), env)
+            return
         if isinstance(st, ast.AugAssign) and isinstance(st.target, ast.Name):
             cur = env[st.target.id]
             env[st.target.id] = self.binop(st.op, cur, self.expr(st.value, env))
@@ -107,6 +123,12 @@ class Evaluator:
             if not isinstance(base, Obj):
                 raise Unsupported("attribute store on non-object")
             base.__dict__[t.attr] = v
+        elif isinstance(t, ast.Subscript):
+            base = self.expr(t.value, env)
+            if isinstance(t.slice, ast.Slice) and t.slice.lower is None and t.slice.upper is None:
+                base[:] = v
+            else:
+                base[self.expr(t.slice, env)] = v
         elif isinstance(t, (ast.Tuple, ast.List)):
             vs = list(v)
             if len(vs) != len(t.elts):
@@ -140,6 +162,10 @@ class Evaluator:
                 return env[e.id]
             if e.id in ("True", "False", "None"):
                 return {"True": True, "False": False, "None": None}[e.id]
+            if e.id in self.globals:
+                return self.globals[e.id]
+            if e.id in self.classes:
+                return ClassRef(e.id)
             if self.lookup is not None:
                 src = self.lookup(e.id)
                 if src is not None:
@@ -153,6 +179,8 @@ class Evaluator:
                     return self.modules[e.value.id][e.attr]
                 raise Unsupported(f"module attribute {e.value.id}.{e.attr}")
             base = self.expr(e.value, env)
+            if isinstance(base, ClassRef) and e.attr == "__name__":
+                return base.name
             if isinstance(base, Obj):
                 if e.attr in base.__dict__:
                     return base.__dict__[e.attr]
@@ -164,6 +192,8 @@ class Evaluator:
             return tuple(self.expr(x, env) for x in e.elts)
         if isinstance(e, ast.List):
             return [self.expr(x, env) for x in e.elts]
+        if isinstance(e, ast.Dict):
+            return {self.expr(k, env): self.expr(v, env) for k, v in zip(e.keys, e.values)}
         if isinstance(e, ast.BoolOp):
             if isinstance(e.op, ast.And):
                 v = True
@@ -274,6 +304,101 @@ class Evaluator:
             return {ast.Lt: la < lb, ast.Gt: la > lb, ast.LtE: la <= lb, ast.GtE: la >= lb}[type(op)]
         return {ast.Lt: lambda: a < b, ast.Gt: lambda: a > b, ast.LtE: lambda: a <= b, ast.GtE: lambda: a >= b}[type(op)]()
 
+    def call_sorted(self, seq):
+        out = []
+        for x in seq:
+            i = len(out)
+            while i > 0 and (self.obj_lt(x, out[i - 1]) if isinstance(x, Obj) else x < out[i - 1]):
+                i -= 1
+            out.insert(i, x)
+        return out
+
+    def invoke(self, fnode, args, kwargs):
+        """Call a repository function with positional *args* and keyword *kwargs* (full binding incl. *a / **k)."""
+        a = fnode.args
+        params = [x.arg for x in a.posonlyargs + a.args]
+        bound = {}
+        rest = list(args)
+        for name in params:
+            if rest:
+                bound[name] = rest.pop(0)
+        if rest:
+            if a.vararg is None:
+                raise Unsupported("too many positional arguments")
+        if a.vararg is not None:
+            bound[a.vararg.arg] = tuple(rest)
+        kw = dict(kwargs)
+        for name in params[len(a.posonlyargs):] + [x.arg for x in a.kwonlyargs]:
+            if name in kw:
+                if name in bound:
+                    raise Unsupported("argument given twice")
+                bound[name] = kw.pop(name)
+        if a.kwarg is not None:
+            bound[a.kwarg.arg] = kw
+        elif kw:
+            raise Unsupported(f"unexpected keyword {sorted(kw)}")
+        for name, d in zip(params[len(params) - len(a.defaults):], a.defaults):
+            if name not in bound:
+                bound[name] = self.expr(d, {})
+        for x, d in zip(a.kwonlyargs, a.kw_defaults):
+            if x.arg not in bound and d is not None:
+                bound[x.arg] = self.expr(d, {})
+        missing = [n for n in params + [x.arg for x in a.kwonlyargs] if n not in bound]
+        if missing:
+            raise Unsupported(f"missing arguments {missing}")
+        self._call_depth += 1
+        if self._call_depth > 8:
+            self._call_depth -= 1
+            raise Unsupported("call depth")
+        try:
+            return self.call_function(fnode, bound)
+        finally:
+            self._call_depth -= 1
+
+    def instantiate(self, cname: str, args, kwargs):
+        cnode = self.classes[cname]
+        init = self.methods.get((cname, "__init__"))
+        if init is not None:
+            me = Obj(cname)
+            self.invoke(init, [me] + list(args), kwargs)
+            return me
+        # dataclass-style: annotated fields in order, defaults from `= const` / field(default=..., default_factory=...)
+        fields = []
+        for st in cnode.body:
+            if isinstance(st, ast.AnnAssign) and isinstance(st.target, ast.Name):
+                fields.append((st.target.id, st.value))
+        vals = {}
+        rest = list(args)
+        for name, _ in fields:
+            if rest:
+                vals[name] = rest.pop(0)
+        if rest:
+            raise Unsupported("too many constructor arguments")
+        for k, v in kwargs.items():
+            if k not in [n for n, _ in fields] or k in vals:
+                raise Unsupported(f"constructor keyword {k}")
+            vals[k] = v
+        for name, dv in fields:
+            if name in vals:
+                continue
+            if dv is None:
+                raise Unsupported(f"missing constructor argument {name}")
+            if isinstance(dv, ast.Call) and ast.unparse(dv.func) in ("field", "dataclasses.field"):
+                got = False
+                for k in dv.keywords:
+                    if k.arg == "default":
+                        vals[name] = self.expr(k.value, {})
+                        got = True
+                    elif k.arg == "default_factory":
+                        fac = ast.unparse(k.value)
+                        vals[name] = {"list": [], "dict": {}, "set": set()}.get(fac)
+                        got = fac in ("list", "dict", "set")
+                if not got:
+                    raise Unsupported(f"default of field {name}")
+            else:
+                vals[name] = self.expr(dv, {})
+        return Obj(cname, **vals)
+
     def obj_lt(self, a, b) -> bool:
         if not isinstance(a, Obj):
             raise Unsupported("mixed comparison")
@@ -304,7 +429,33 @@ class Evaluator:
         f = e.func
         if isinstance(f, ast.Name) and f.id == "isinstance" and len(e.args) == 2:
             return self._isinstance(self.expr(e.args[0], env), e.args[1])
-        args = [self.expr(a, env) for a in e.args]
+        args = []
+        for a in e.args:
+            if isinstance(a, ast.Starred):
+                args.extend(list(self.iterate(self.expr(a.value, env))))
+            else:
+                args.append(self.expr(a, env))
+        kwargs = {}
+        for k in e.keywords:
+            if k.arg is None:
+                kwargs.update(self.expr(k.value, env))
+            else:
+                kwargs[k.arg] = self.expr(k.value, env)
+        # construction / classmethods of modelled classes
+        target_cls = None
+        if isinstance(f, ast.Name) and f.id not in env and f.id in self.classes:
+            target_cls = f.id
+        elif isinstance(f, ast.Name) and isinstance(env.get(f.id), ClassRef):
+            target_cls = env[f.id].name
+        if target_cls is not None:
+            return self.instantiate(target_cls, args, kwargs)
+        if isinstance(f, ast.Attribute) and ((isinstance(f.value, ast.Name) and f.value.id not in env and f.value.id in self.classes)
+                                             or (isinstance(f.value, ast.Name) and isinstance(env.get(f.value.id), ClassRef))):
+            cname = f.value.id if f.value.id in self.classes and f.value.id not in env else env[f.value.id].name
+            m = self.methods.get((cname, f.attr))
+            if m is not None and any(ast.unparse(d) == "classmethod" for d in m.decorator_list):
+                return self.invoke(m, [ClassRef(cname)] + args, kwargs)
+            raise Unsupported(f"class attribute call {cname}.{f.attr}")
         if isinstance(f, ast.Name):
             n = f.id
             if n in self.functions and self._call_depth < 3:
@@ -373,30 +524,14 @@ class Evaluator:
             if isinstance(base, str) and f.attr in ("upper", "lower", "startswith", "endswith", "replace", "count",
                                                      "strip", "join"):
                 return getattr(base, f.attr)(*args)
-            if isinstance(base, Obj) and (base._cls, f.attr) in self.methods and self._call_depth < 4:
-                m = self.methods[(base._cls, f.attr)]
-                params = [a.arg for a in m.args.posonlyargs + m.args.args]
-                kwonly = [a.arg for a in m.args.kwonlyargs]
-                bound = {params[0]: base}
-                for name, val in zip(params[1:], args):
-                    bound[name] = val
-                for k in e.keywords:
-                    if k.arg is None:
-                        raise Unsupported("**kwargs")
-                    bound[k.arg] = self.expr(k.value, env)
-                defaults = m.args.defaults
-                for name, d in zip(params[len(params) - len(defaults):], defaults):
-                    if name not in bound:
-                        bound[name] = self.expr(d, {})
-                for name, d in zip(kwonly, m.args.kw_defaults):
-                    if name not in bound and d is not None:
-                        bound[name] = self.expr(d, {})
-                if set(bound) != set(params + kwonly):
-                    raise Unsupported(f"binding of {f.attr}")
-                self._call_depth += 1
-                try:
-                    return self.call_function(m, bound)
-                finally:
-                    self._call_depth -= 1
+            if isinstance(base, Obj) and (base._cls, f.attr) in self.methods and self._call_depth < 6:
+                return self.invoke(self.methods[(base._cls, f.attr)], [base] + args, kwargs)
+            if isinstance(base, dict) and f.attr in ("setdefault", "get", "pop", "keys", "values", "items", "update"):
+                return getattr(base, f.attr)(*args, **kwargs)
+            if isinstance(base, list) and f.attr in ("append", "extend", "sort", "index", "count", "insert", "remove", "pop"):
+                if f.attr == "sort" and any(isinstance(x, Obj) for x in base):
+                    base[:] = self.call_sorted(base)
+                    return None
+                return getattr(base, f.attr)(*args, **kwargs)
             raise Unsupported(f"method {f.attr}")
         raise Unsupported("call")
